@@ -195,7 +195,7 @@ static std::string gen(const std::string &prop, uint64_t base, uint64_t idx, boo
             if (v.empty()) continue;
             calllines.push_back(strf("call t=%d fn=get obj=%d fmt=%s f=%s via=%s", t, shared_obj, shf->name, fl->name, v[r.below(v.size())]));
         } else if (k < 84) {  // ACF CAN builders
-            unsigned len = (unsigned)(r.chance(0.7) ? r.below(9) : r.below(65));
+            unsigned len = (unsigned)(r.chance(0.7) ? r.below(9) : r.chance(0.85) ? r.below(65) : r.range(65, 300));  // the builders take any 16-bit length
             unsigned pad = (4 - len % 4) % 4;
             bool brief = r.chance(0.35);
             int pdu = new_obj(t, (brief ? 8 : 16) + len + pad);
@@ -220,9 +220,10 @@ static std::string gen(const std::string &prop, uint64_t base, uint64_t idx, boo
             unsigned am = (unsigned)r.below(2);
             static const unsigned dts[] = {0, 1, 2, 3, 4, 5, 6, 7, 8, 9, 0xA, 0xB, 0x80, 0x81, 0x82, 0x83, 0x84, 0x85, 0x86, 0x87, 0x88, 0x89, 0x8A, 0x8B};
             unsigned dt = dts[r.below(24)];
-            unsigned plen = am == 1 ? 0 : (unsigned)r.range(0, 24);
+            bool big = r.chance(0.1);
+            unsigned plen = am == 1 ? 0 : (unsigned)(big ? r.range(25, 400) : r.range(0, 24));
             unsigned pathbytes = am == 1 ? 4 : 2 + plen;
-            unsigned abytes = vss_is_var(dt) ? (unsigned)r.range(0, 6) * vss_elem(dt) : 0;
+            unsigned abytes = vss_is_var(dt) ? (unsigned)(big ? r.range(7, 120) : r.range(0, 6)) * vss_elem(dt) : 0;
             unsigned valbytes = vss_is_var(dt) ? 2 + abytes : vss_scalar_bytes(dt);
             unsigned total = 12 + pathbytes + valbytes, pad = (4 - total % 4) % 4;
             bool dopad = r.chance(0.6);
@@ -239,12 +240,17 @@ static std::string gen(const std::string &prop, uint64_t base, uint64_t idx, boo
                 calllines.push_back(strf("call t=%d fn=vss_decode obj=%d obj2=%d obj3=%d", t, msg, pdst, adst));
                 calllines.push_back(strf("call t=%d fn=vss_pathlen obj=%d", t, msg));
             }
+        } else if (k < 97) {  // reserved addressing mode or datatype: encode/decode must leave everything untouched
+            int msg = new_obj(t, 16 + (int)r.below(3) * 4);
+            calllines.push_back(strf("call t=%d fn=init obj=%d fmt=Vss via=cur", t, msg));
+            calllines.push_back(strf("call t=%d fn=vss_reserved obj=%d a=%u b=0x%x", t, msg, (unsigned)(r.coin() ? r.range(2, 3) : r.below(2)), (unsigned)(r.coin() ? r.range(0xC, 0x7F) : r.range(0x8C, 0xFF))));
         } else {  // VSS string arrays
-            int n = (int)r.range(0, 5);
+            int n = (int)r.range(0, 8);
             std::string lens, srcs, dsts;
             size_t total = 0;
+            bool longs = r.chance(0.15);
             for (int s = 0; s < n; s++) {
-                unsigned l = (unsigned)r.range(0, 12);
+                unsigned l = (unsigned)(longs ? r.range(0, 200) : r.range(0, 12));
                 total += 2 + l;
                 int so = new_obj(t, l ? l : 1), dob = new_obj(t, l ? l : 1);
                 lens += strf("%s%u", s ? "," : "", l);
@@ -640,6 +646,15 @@ static uint64_t do_call(const Call &c, bool &skipped) {
         auto it = o2 ? w.inblock_ok.find(c.obj2) : w.inblock_ok.end();
         if (!o2 || !o2->shared || it == w.inblock_ok.end() || o->size < it->second) { skipped = true; return 0; }
         enter(); res = drv_vss_encode_from(o->p, o2->p); leave();
+        return res;
+    }
+    if (c.fn == "vss_reserved") {
+        // reserved mode/datatype codes: with a reserved addressing mode no path, with a reserved datatype no value is touched;
+        // the driver passes descriptors that live on the caller's stack and point nowhere
+        unsigned am = (unsigned)c.a, dt = (unsigned)c.b;
+        if (o->size < 16 || (am < 2 && !(dt >= 0xC && dt < 0x80) && dt < 0x8C)) { skipped = true; return 0; }
+        if (am < 2) { skipped = true; return 0; }  // valid mode + reserved datatype would still write a path: needs path storage, not generated
+        enter(); res = drv_vss_encode(o->p, am, dt, 0, nullptr, 0, 0, nullptr, 0); leave();
         return res;
     }
     if (c.fn == "vss_pad") {
